@@ -30,6 +30,11 @@ enum Parsed<'a> {
         target: &'a str,
         second: Option<&'a str>,
     },
+    /// An option whose short name is `h`: an ordinary option when the help facility is off
+    Conn {
+        #[arg(short, long)]
+        host: Option<&'a str>,
+    },
     /// Nested
     Net {
         #[arg(short, long)]
@@ -88,6 +93,13 @@ pub fn run(_r: &mut Rng, _iters: usize) -> Option<Cex> {
         ("open a.txt -k 7 --level", "", &["Open { path: \"a.txt\", level: None, key: 7, verbose: false }"]),
         ("open a.txt -k x", "error: failed to parse 'x', expected u16\n", &[]),
         ("open a.txt -k 7 -l 300", "error: failed to parse '300', expected u8\n", &[]),
+        // values just above the maximum of the type (no arithmetic overflow on the way to the parse error)
+        ("open a.txt -k 7 -l 256", "error: failed to parse '256', expected u8\n", &[]),
+        ("open a.txt -k 7 -l 259", "error: failed to parse '259', expected u8\n", &[]),
+        ("open a.txt -k 65536", "error: failed to parse '65536', expected u16\n", &[]),
+        ("open a.txt -k 65539", "error: failed to parse '65539', expected u16\n", &[]),
+        ("open a.txt -k 65535 -l 255", "", &["Open { path: \"a.txt\", level: Some(255), key: 65535, verbose: false }"]),
+        ("conn --host a", "", &["Conn { host: Some(\"a\") }"]),
         ("open a.txt -k 7 -x", "error: unexpected option: -x\n", &[]),
         ("open a.txt -k 7 --nope", "error: unexpected option: --nope\n", &[]),
         ("open a.txt b.txt -k 7", "error: unexpected argument: b.txt\n", &[]),
@@ -104,7 +116,10 @@ pub fn run(_r: &mut Rng, _iters: usize) -> Option<Cex> {
         ("nope", "error: unknown command\n", &[]),
         ("", "", &[]),
     ];
-    for (line, printed, calls) in cases {
+    // `-h` belongs to the help facility only when that facility is compiled in
+    let no_help: &[(&str, &str, &[&str])] = &[("conn -h a", "", &["Conn { host: Some(\"a\") }"]), ("conn -h", "", &["Conn { host: None }"])];
+    let extra: &[(&str, &str, &[&str])] = if cfg!(feature = "help") { &[] } else { no_help };
+    for (line, printed, calls) in cases.iter().chain(extra.iter()) {
         crate::note(&format!("derived parser, line {:?}", line));
         match run_line(line) {
             Ok((out, c)) => {
